@@ -435,7 +435,7 @@ impl Prop for C02 {
         run(c, o)
     }
     fn rule() -> &'static str {
-        "proptest over complete client<->server scenarios: generated (tonic-build of the working tree) services vt.Raw / vt.Test (prost) x four call shapes x handler script (initial metadata; 0-6 response messages with Pending/virtual-delay patterns; OK or Status(code 1-16, Unicode message, details, ASCII/binary metadata) returned by the handler itself or as a stream item after the messages) x caller metadata and 0-6 request messages x pipe fragmentation schedules in both directions (0 = spurious Pending, 1-8 byte reads, larger reads) x scheduler seed; real tonic Channel and Server over hyper/h2 on an in-memory pipe, single-threaded runtime, paused clock. Oracle: the script is the reference model for what the client must observe (messages, order, outcome, code/message/details, every metadata entry), the caller's request for what the handler must observe; virtual-time watchdog for completion. Non-trivial: error after >=1 message, or error with details and metadata, or >=2 messages with reads shorter than an h2 frame header; distinct = distinct serialised case. A quarter of the cases configure Server::concurrency_limit_per_connection(1..3); handler streams of scripts with an even number of messages report their exact length."
+        "proptest over complete client<->server scenarios: generated (tonic-build of the working tree) services vt.Raw / vt.Test (prost) x four call shapes x handler script (initial metadata; 0-6 response messages with Pending/virtual-delay patterns; OK or Status(code 1-16, Unicode message, details, ASCII/binary metadata) returned by the handler itself or as a stream item after the messages) x caller metadata and 0-6 request messages x pipe fragmentation schedules in both directions (0 = spurious Pending, 1-8 byte reads, larger reads) x scheduler seed; real tonic Channel and Server over hyper/h2 on an in-memory pipe, single-threaded runtime, paused clock. Oracle: the script is the reference model for what the client must observe (messages, order, outcome, code/message/details, every metadata entry), the caller's request for what the handler must observe; virtual-time watchdog for completion. Non-trivial: error after >=1 message, or error with details and metadata, or >=2 messages with reads shorter than an h2 frame header; distinct = distinct serialised case. A quarter of the cases configure Server::concurrency_limit_per_connection(1..3); handler streams of scripts with an even number of messages report their exact length. An eighth of the cases inject a transient accept error before the client connects; endpoint URIs may carry a path; pipe directions may take short writes."
     }
     fn assumptions() -> Vec<String> {
         vec![
